@@ -154,6 +154,16 @@ class C02(GenCheck):
             # a bare decimal constant assigned to the destination (conversion at the assignment only)
             e = ["c", float(rng.choice(DECIMALS + ["2.7", "3.5", "0.99999", "7.6", "41.50001", "1234.56789", "0.5", "2.5"]))]
         case["expr"] = e
+        if rng.random() < 0.08:
+            # a 64-bit integer register plus an integer constant (the generator folds these into one node), and THEN a decimal
+            kind = rng.choice(["r", "sr"])
+            case["regs"] = list(case["regs"]) + [(kind, 4)]
+            case["reginit"][4] = rng.choice([0, 1, 7, 100, 1000, 12345])
+            R = ["r", kind, 4]
+            inner = [rng.choice(["+", "-"]), R, ["c", rng.choice([1, 2, 3, 10, 1000])]]
+            dec = ["c", float(rng.choice(["0.5", "0.25", "2.75", "0.29", "0.00001", "123.456"]))]
+            case["expr"] = rng.choice([[rng.choice(["+", "-"]), inner, dec], ["+", dec, inner], [rng.choice(["+", "-"]), [rng.choice(["+", "-"]), inner, dec], ["v", names[0]]]])
+            return case
         if case["regs"] and rng.random() < 0.3:
             # the destination is the fixed-point register, which the expression itself reads (left or right of an integer or
             # fixed-point operand): e.x3 = e.w2 * e.x3
@@ -308,7 +318,7 @@ class C02(GenCheck):
         if x[0] == "r" and x[1] == "sr" and ("x", x[2]) in [tuple(r) for r in case["regs"]]:
             return f"(FInt (EReg {cz(self.const_scaled(case['reginit'][x[2]]) % (1 << 64))} true true))"
         if x[0] == "r" and x[1] != "x":
-            return f"(FInt (EReg {cz(case['reginit'][x[2]] % (1 << 64))} false {cbool(x[1] == 'sw')}))"
+            return f"(FInt (EReg {cz(case['reginit'][x[2]] % (1 << 64))} {cbool(x[1] in ('r', 'sr'))} {cbool(x[1] in ('sw', 'sr'))}))"
         if x[0] == "r":
             return f"(FFix (EReg {cz(self.const_scaled(case['reginit'][x[2]]) % (1 << 64))} true true))"
         if x[0] == "v":
